@@ -37,7 +37,25 @@ func init() {
 			if r.Class != "ok" {
 				continue
 			}
-			for _, data0 := range acceptedVariants(g, r.Appended) {
+			variants := acceptedVariants(g, r.Appended)
+			if t.Frame != nil && len(r.Appended) >= hdrSize(t.Frame)+4+t.Frame.CksW {
+				// a frame whose length field claims MORE (or less) than the body's structural size, with that many bytes present
+				H := hdrSize(t.Frame)
+				real := getUint(r.Appended[H:H+4], t.Frame.E)
+				for _, k := range []int{1, 2, 7} {
+					d := append([]byte{}, r.Appended[:len(r.Appended)-t.Frame.CksW]...)
+					putUint(d[H:H+4], t.Frame.E, real+uint64(k))
+					d = append(d, g.bytes(k, ' ')...)
+					d = append(d, r.Appended[len(r.Appended)-t.Frame.CksW:]...)
+					variants = append(variants, d)
+					if real >= uint64(k) {
+						d2 := append([]byte{}, r.Appended...)
+						putUint(d2[H:H+4], t.Frame.E, real-uint64(k))
+						variants = append(variants, d2)
+					}
+				}
+			}
+			for _, data0 := range variants {
 				data := append(append([]byte{}, data0...), g.prefix()...)
 				d := corrDec(o, v.Ty, data, g.mode())
 				if d.Class != "ok" {
